@@ -84,9 +84,15 @@ def run(ctx):
         n_ok = n_err = 0
         for p in s.paths:
             outs = [e for e in p.events if e[0] == 'call' and 'hash_password_into' in e[1]]
+            for e in outs:
+                # the caller's own Argon2 context (variant, version, secret, costs) does the hashing, on the input, with the fixed all-zero salt
+                a = e[2]
+                good = len(a) >= 3 and a[0] == Sym('self') and a[1] == Sym('input') and a[2][0] == 'bytes' and set(a[2][1]) <= {0}
+                rep.ob('R15.6', "Argon2 adapter: hash_password_into is called on the caller's instance itself, on the input, with the fixed salt", good,
+                       'receiver %s, password %s, salt %s' % (show(a[0])[:100], show(a[1])[:60], show(a[2])[:60] if len(a) > 2 else '-'), w, 'argon2')
             if p.ok:
                 n_ok += 1
-                rep.ob('R15.6', 'Argon2 adapter: Ok only after hash_password_into', bool(outs), 'Ok path without the call', w, 'argon2')
+                rep.ob('R15.6', 'Argon2 adapter: Ok only after hash_password_into', len(outs) == 1, 'calls on Ok path: %d' % len(outs), w, 'argon2')
                 fails = [e for e in p.events if e[0] == 'outcome' and e[2] == 'Err']
                 rep.ob('R15.6', 'Argon2 adapter: no Ok after failure', not fails, 'Ok path after failed outcome', w, 'argon2')
             else:
